@@ -492,8 +492,9 @@ def ackBlock (s : Tcb) (seg : Hdr) : B :=
           { s with state := .TimeWait, timeouts.timeWait := some TIME_WAIT } else s
       if r = .Success then .ok (s, none) else .ok (s, some r)
   | .LastAck =>
-    let s := { s with snd.una := seg.ack }
-    if s.isFinAcked then .ok (s, some .FinalizeClose) else .ok (s, none)
+    afterAckEstablished (s.ackEstablishedProcessing seg) fun s r =>
+      if s.isFinAcked then .ok (s, some .FinalizeClose)
+      else if r = .Success then .ok (s, none) else .ok (s, some r)
   | .TimeWait =>
     -- only a retransmitted FIN is acknowledged and restarts the 2 MSL timeout (in `finBlock`)
     .ok (s, none)
